@@ -124,6 +124,9 @@ def hermitian_configs(tier, hermitian=True):
     add(carrier="C", sizes=[1, 2], spectrum=["0", "1", "3"], terms=[[1]], max_order=3, fd=[0, 1])
     add(carrier="C", sizes=[2, 1], spectrum=["1", "3", "0"], terms=[[1]], max_order=3, fd=[0, 1])
     add(carrier="A", sizes=[1, 2], spectrum=["0", "1", "2"], terms=[[1]], max_order=3, fd=[0, 1])
+    # boolean masks on an exactly zero block (1x1 and 2x2) of a symbolic Hamiltonian
+    add(carrier="C", sizes=[1, 2], spectrum=["0", "1", "3"], terms=[[1]], max_order=3, fd={"0": [[0]], "1": [[0, 1], [1, 0]]})
+    add(carrier="C", sizes=[2, 1], spectrum=["0", "0", "2"], terms=[[1]], max_order=2, fd={"0": [[0, 0], [0, 0]]})
     # blocks of fully_diagonalize designated by negative indices
     add(carrier="A", sizes=[1, 2], spectrum=["0", "1", "2"], terms=[[1]], max_order=3, fd=[-1])
     add(carrier="C", sizes=[2, 1, 2], spectrum=RAT_SPECTRA[5], terms=[[1]], max_order=2, fd=[-3, -1])
